@@ -263,7 +263,11 @@ TIE2.update({
             'every interleaving of script writes and debugger writes: erasing the debugger writes leaves the reported sequence unchanged '
             '(C13_debugger_text_never_reported), the real stdout gets exactly the script writes (C13_real_stdout_gets_everything), the prompt text is exactly what '
             'that trace\'s debugger wrote since its last readline.  A registrar-level oracle judges what subscribers of stdout receive.',
-            '; debugger stream / peek wrapper regenerated, two-sink non-interference proofs'),
+            ' The assumption "pdb writes everything to the stream it was constructed with" is a VISIBLE hypothesis of these theorems (no_sys_write, no_swap on the label list): '
+            'it is false of CPython\'s pdb for `help pdb`, `interact` and statement commands (Pdb.default swaps sys.stdout process-wide) -- modelled by the labels LDbgSysWrite / LSwapOn / '
+            'LSwapOff, witnessed by C13_debugger_text_never_reported_refuted_help_pdb and C13_real_stdout_refuted_bang_statement_other_thread, reproduced on the real code on every run and '
+            'recorded as three known findings; C13_tie_reported_and_real_exact characterises events and real stdout exactly for EVERY label list.',
+            '; debugger stream / peek wrapper regenerated, two-sink non-interference proofs with the pdb assumption as a visible hypothesis'),
     'C07': (' SECOND TIE (every run): translate/prompt_funs.py regenerates prompt.py, the prompt function of factory.py, CommandSender, the event dispatch and '
             'send_pdb_command (Gen/PromptFuns.v); Prompt/Tie.v and TieSys.v prove, by induction over every label list, that the interpreter of the regenerated code '
             'simulates Prompt/Model.v (child) and Prompt/System.v (system), and that over several runs the main-process guard forwards a command iff its pair was '
